@@ -42,6 +42,7 @@ def run(R):
               "reproduce them. Non-trivial: target outside the gamut or on its boundary, or baseline non-zero.")
     kinds = ["inside", "inside", "boundary", "outside", "outside"]
     rows = []
+    n_solver_err = [0]
     for si in range(nsys):
         k = "s%d" % si
         if not R.want(k):
@@ -103,6 +104,10 @@ def run(R):
         rngb = np.where(np.isfinite(S["ub"]), S["ub"] - S["lb"], 1.0)
         for name, st, o in (("gaussian", stg, og), ("poisson", stp, op_), ("excitation", ste, oe)):
             sig = "C07:" + name
+            if st == "other:SolverError":
+                # the conic solver itself gave up (cvxpy raises): a loud runtime failure, not a wrong answer; the model cannot exhibit it.
+                # counted, and a violation only when it becomes systematic (see the end of run)
+                R.count("solver-error-raised:" + name); n_solver_err[0] += 1; continue
             if st != "ok":
                 R.failB(dict(pub, impl_error=o), "%s fit raised %s: %s" % (name, st, o), sig + ":raises:" + st); continue
             X, Bp = np.asarray(o[0]), np.asarray(o[1])
@@ -142,3 +147,8 @@ def run(R):
                 R.cert(okc)
                 if not okc:
                     R.failA(dict(pub, row=i, objective=float(that)), "excitation answer not certified within %.0e of the optimum level (objective %.6g)" % (EPS, float(that)))
+    n_sys = max(1, R.evaluations)
+    R.notes["solver_errors_raised"] = n_solver_err[0]
+    if n_solver_err[0] > max(2, 0.05 * 3 * n_sys):
+        R.failB(dict(n=n_solver_err[0], systems=n_sys), "the conic solver raised SolverError on %d of %d fits: systematic, not a sporadic runtime failure" % (n_solver_err[0], 3 * n_sys),
+                "C07:solver-errors-systematic")
